@@ -11,4 +11,44 @@ TEXT = {
        '(shown necessary by C19_atomic_failure_needed); no transient GetLog errors; errors compared as ok/error.',
   technique='Coq proof (simulation invariant over op sequences) + differential correspondence model vs real LogCache',
  ),
+ 'C05': dict(
+  level='Machine-checked theorems (Coq) over the model of commitment.go for ANY configuration, cluster size, start index and ANY sequence of match reports / '
+        'configuration changes: the median-of-sorted index is exactly the largest index matched by a strict majority (C05_quorum_index_spec); a non-zero commit index '
+        'is >= startIndex and was matched by a strict majority of the voter slots in force when set (C05_commit_sound); slots exist exactly for voters, one per id, '
+        'and hold only values reported for that id; reports for non-voters change nothing; commit index monotone; follower min(LeaderCommit,lastIndex) only upward and <= last index. '
+        'Tie: real commitment driven through the tag-exported wrapper on exhaustive small tables + random op sequences, diffed against the extracted model; '
+        'the property monitor (majority of current voters really reported >= commit, >= startIndex, monotone) runs on the implementation. '
+        'Partial: that the reporting voters durably hold the entries is the handler-level store-before-ack order (checked in the node-sequence tie), the global "still hold it" part needs leader completeness.',
+  note='Trusted: Coq kernel, extraction cross-checked in Coq, harness. Leader/follower call sites of match are tied through the node-sequence and cluster components, not this one.',
+  technique='Coq proof (sorting/counting lemma + invariant over op sequences) + exhaustive differential tables against real commitment',
+ ),
+ 'C06': dict(
+  level='Machine-checked theorems (Coq) over the model of one server (NewRaft recovery, requestVote, requestPreVote, appendEntries, installSnapshot, timeoutNow, electSelf) for '
+        'EVERY event sequence, EVERY store-failure pattern and EVERY crash cut between two durable writes followed by restart, from ANY durable image with voteTerm <= term: '
+        'at most one candidate is granted per term over the whole history (C06_one_vote_per_term); a vote is cast only for the request being handled after the log up-to-date and '
+        'voter-membership checks; Granted is answered only with the record (term,candidate) durable; durable term never decreases, also across restarts (C06_every_step). '
+        'Tie: real servers booted with NewRaft from enumerated images and driven through processRPC/electSelf with injected failures and crash cuts; response, ordered store-call trace '
+        'and full projected state after each event are diffed against the extracted model, and the property monitors run on the implementation. '
+        'A genuine defect (F1: vote term persisted before candidate) was found by this check and repaired (fix: commit in /repo).',
+  note='Trusted: Coq kernel; harness stores (atomic calls, failed call has no effect); SetUint64(CurrentTerm) failure = panic = crash. Protocol version 3 only.',
+  technique='Coq proof (invariants over event histories with crash cuts) + differential node-sequence correspondence with failure/crash enumeration',
+ ),
+ 'C07': dict(
+  level='Machine-checked theorems (Coq) over the model of configuration.go for ANY configuration and ANY request: an accepted change yields >=1 voter and unique non-empty ids/addresses, '
+        'changes the vote/membership of at most the one server it names, a stale prevIndex is rejected, majorities of two successive configurations intersect (pigeonhole proof), '
+        'quorumSize is a strict majority of voters only, commitment slots ignore non-voters. Tie: real nextConfiguration/checkConfiguration/hasVote/inConfiguration/quorumSize vs extracted model, '
+        'exhaustive on a small universe incl. ill-formed configurations; monitors on the implementation (no aliasing of the input, voter-set distance <= 1, well-formedness recomputed independently). '
+        'Partial: the leader-loop gate (previous configuration committed + own-term entry committed) and "never elected" are checked by the cluster/gate components as they are added; the global '
+        '"no log holds two uncommitted configurations" needs leader completeness and is not proved.',
+  note='Trusted: Coq kernel; harness naming of ids/addresses. Errors compared as ok/error.',
+  technique='Coq proof (list lemmas, pigeonhole) + exhaustive differential enumeration against real nextConfiguration',
+ ),
+ 'C11': dict(
+  level='Machine-checked theorems (Coq) for ALL first/snapshot/last/TrailingLogs values: the compaction range starts at the first index, ends at or below the snapshot index and leaves at least '
+        'TrailingLogs entries; it is maximal; the reset on monotonic stores removes exactly what the store holds. Tie: real compactLogsWithTrailing on a node over a recording store, exhaustive 0..8^4, '
+        'plus the monitor on the DeleteRange actually issued. Partial: coverage "every index <= last is in the newest snapshot or the log" across crashes and InstallSnapshot is checked on node sequences '
+        '(C10/C02 components) and is known to fail after InstallSnapshot over a longer log (finding F3), it is not proved globally.',
+  note='Trusted: Coq kernel; harness store FirstIndex semantics (least key).',
+  technique='Coq proof (arithmetic, lia) + exhaustive differential sweep of compactLogsWithTrailing',
+ ),
 }
